@@ -90,6 +90,12 @@ pub const REPS: &[(&str, &str, &str)] = &[
     ("neg-float", "fn f0() -> f64 { -1.5 }\n", "(prog (fn 0 () f64 (blk () (neg (float _)))))"),
     ("not-bool", "fn f0(v0: bool) -> bool { !v0 }\n", "(prog (fn 0 ((0 bool)) bool (blk () (not (var 0)))))"),
     ("not-int", "fn f0(v0: i32) -> bool { !v0 }\n", "(prog (fn 0 ((0 i32)) bool (blk () (not (var 0)))))"),
+    ("not-as-int", "fn f0() -> i32 { !true }\n", "(prog (fn 0 () i32 (blk () (not (bool)))))"),
+    ("if-without-else-as-value", "fn f0(v0: bool) -> i32 { if v0 { } }\n", "(prog (fn 0 ((0 bool)) i32 (blk () (if (var 0) (blk ())))))"),
+    ("while-as-value", "fn f0(v0: bool) -> i32 { while v0 { } }\n", "(prog (fn 0 ((0 bool)) i32 (blk () (while (var 0) (blk ())))))"),
+    ("call-too-many", "fn f1(v0: i32) -> bool { true }\nfn f0() -> bool { f1(1, 2) }\n",
+     "(prog (fn 1 ((0 i32)) bool (blk () (bool))) (fn 0 () bool (blk () (call 1 (int _) (int _)))))"),
+    ("neg-as-bool", "fn f0(v0: i8) -> bool { -v0 }\n", "(prog (fn 0 ((0 i8)) bool (blk () (neg (var 0)))))"),
     ("add-ints", "fn f0(v0: i32) -> i32 { v0 + 1 }\n", "(prog (fn 0 ((0 i32)) i32 (blk () (bin add (var 0) (int _)))))"),
     ("add-strings", "fn f0(v0: String) -> String { v0 + \"s\" }\n", "(prog (fn 0 ((0 str)) str (blk () (bin add (var 0) (str)))))"),
     ("add-string-int", "fn f0(v0: String) -> String { v0 + 1 }\n", "(prog (fn 0 ((0 str)) str (blk () (bin add (var 0) (int _)))))"),
